@@ -118,7 +118,7 @@ KF(o, f) == IF "KC20-1" \in ActiveK /\ KC20_1(o, f) THEN "KC20-1" ELSE ""
 (* state s, the client's previous cached reads `last` and the invalidations in flight `pend`   *)
 (* (as observed after the previous operation) are carried from step to step.                   *)
 DefaultP == [kind |-> "mem", shape |-> "dict", nclients |-> 1, cap |-> 1, maxlen |-> 1, maxinfl |-> 1,
-             ttl |-> 0, writer2 |-> FALSE, lite |-> FALSE, ttl1 |-> FALSE]
+             ttl |-> 0, writer2 |-> FALSE, lite |-> FALSE, ttl1 |-> FALSE, nkeys |-> 2]
 PathP(n) == IF n <= N /\ Obs[n].type = "path" THEN Obs[n].P ELSE DefaultP
 Mk(o, f) == [id |-> f.id, clause |-> f.clause, kf |-> KF(o, f), step |-> f.step, op |-> f.op]
 
